@@ -105,7 +105,7 @@ class Trace:
                          expect_ok=expect_ok)
 
     def ite(self, g, u, v, hold=True):
-        return self.call('ite', dict(g=g, u=u, v=v),
+        return self.call('ite', dict(g=g, u=u, v=v, witness=False),
                          lambda: self.bdd.ite(g, u, v), hold=hold)
 
     def apply(self, op, *args, hold=True, expect_ok=True):
@@ -286,6 +286,33 @@ class Trace:
             'pick', a, fn,
             conv=lambda r: self._asg(r) if r is not None
             else dict(n=[], v=[]))
+
+    def cache_keys(self):
+        """Keys of the computed table right now (None if unreadable)."""
+        try:
+            return list(adapter.raw(self.bdd)._ite_table.keys())
+        except Exception:
+            return None
+
+    def cache_witness(self, keys, k=3):
+        """Public-API witness for stale computed-table entries.
+
+        `keys`: (g, u, v) triples that were in the computed table BEFORE a
+        cache-clearing action.  For up to `k` of them whose operand nodes
+        exist now, issue the ordinary public call `ite(g, u, v)`; its
+        contract (judged by TLC) fails if a stale or dangling result comes
+        back.  The call is a legitimate use of the API: the operands are
+        references to existing nodes.
+        """
+        if not keys:
+            return
+        b = adapter.raw(self.bdd)
+        live = [t for t in keys if all(abs(x) in b._succ for x in t)]
+        if not live:
+            return
+        for t in self.rng.sample(live, min(k, len(live))):
+            self.call('ite', dict(g=t[0], u=t[1], v=t[2], witness=True),
+                      lambda t=t: self.bdd.ite(*t), hold=False)
 
     # ---- output ----
     def dumps(self):
